@@ -340,6 +340,17 @@ Definition params_forwarded (r : wrapper_row) : bool :=
   forallb (fun pd => str_mem (fst pd) (role_params r) || passes_param r (fst pd)) (w_params r) &&
   forallb (fun kw => str_mem (fst kw) (map fst level2_flags)) (w_kw r).
 
+(* the documented parameter ORDER of every entry point (w_params lists the parameters in signature order; for the
+   module-level functions they are all positional, so the order is part of the interface: getH(sources, observers, True)
+   must set sumup; the methods' flags are keyword-only, which the translator checks) *)
+Definition documented_params (owner : string) : list string :=
+  if String.eqb owner "" then ["sources"; "observers"; "sumup"; "squeeze"; "pixel_agg"; "output"; "in_out"]%string
+  else if String.eqb owner "BaseSource" then ["squeeze"; "pixel_agg"; "output"; "in_out"]%string
+  else if String.eqb owner "Sensor" then ["sumup"; "squeeze"; "pixel_agg"; "output"; "in_out"]%string
+  else ["squeeze"; "pixel_agg"; "output"]%string.
+Definition param_order_ok (r : wrapper_row) : bool :=
+  list_str_eqb (map fst (w_params r)) (documented_params (w_owner r)).
+
 Definition expected_wrappers : list (string * string) :=
   flat_map (fun o => map (fun m => (o, m)) ["getB"; "getH"; "getJ"; "getM"]%string)
            [""; "BaseSource"; "Sensor"; "BaseCollection"]%string.
